@@ -219,12 +219,15 @@ DEG_IN = {
     'UQ.AngVec': lambda a, u: UnitQuaternion.AngVec(2 * a, [0, 0, 1], unit=u).vec,
 }
 
+BAD_UNITS = ('grad', 'degrees', 'Deg', 'DEG', '', 'de', 'ra', 'radians', 'rad ')
+
 for _name, _fn in DEG_IN.items():
     @claim(f'deg-in:{_name}')
     def _(h, fn=_fn):
         a = h.angle('a')
         h.same('deg(a*180/pi) = rad(a)', fn(h.deg(a), 'deg'), fn(a, 'rad'))
-        h.raises('unknown unit rejected', lambda: fn(a, 'grad'), ValueError)
+        for bad in BAD_UNITS:
+            h.raises(f'unknown unit {bad!r} rejected', lambda: fn(a, bad), ValueError)
 
 
 DEG3 = {
@@ -242,7 +245,8 @@ for _name, _fn in DEG3.items():
     def _(h, fn=_fn):
         a, b, c = h.angle('a'), h.angle('b'), h.angle('c')
         h.same('deg = rad', fn([h.deg(a), h.deg(b), h.deg(c)], 'deg'), fn([a, b, c], 'rad'))
-        h.raises('unknown unit rejected', lambda: fn([a, b, c], 'grad'), ValueError)
+        for bad in BAD_UNITS:
+            h.raises(f'unknown unit {bad!r} rejected', lambda: fn([a, b, c], bad), ValueError)
 
 
 @claim('deg-out:tr2xyt')
@@ -277,11 +281,14 @@ for _o in ('zyx', 'xyz', 'yxz', 'vehicle', 'arm', 'camera'):
 def _(h):
     a, b, c = h.angle('a'), h.angle('b'), h.angle('c')
     R, _ = rot_quat(h, 'R')
-    for bad in ('zxy', 'ZYX', 'xzy', '', 'vehicl', 'rpy'):
+    for bad in ('zxy', 'ZYX', 'xzy', '', 'vehicl', 'rpy', 'x', 'yx', 'xz', 'zy', 'cam', 'ar', 'arm ', 'xyzz', 'zyxvehicle'):
         h.raises(f'rpy2r {bad!r}', lambda: base.rpy2r(a, b, c, order=bad), ValueError)
         h.raises(f'rpy2tr {bad!r}', lambda: base.rpy2tr(a, b, c, order=bad), ValueError)
         h.raises(f'tr2rpy {bad!r}', lambda: base.tr2rpy(R, order=bad), ValueError)
         h.raises(f'SO3.RPY {bad!r}', lambda: SO3.RPY([a, b, c], order=bad), ValueError)
+        h.raises(f'SE3.RPY {bad!r}', lambda: SE3.RPY([a, b, c], order=bad), ValueError)
+        h.raises(f'UnitQuaternion.RPY {bad!r}', lambda: UnitQuaternion.RPY([a, b, c], order=bad), ValueError)
+        h.raises(f'SO3.rpy {bad!r}', lambda: SO3(R, check=False).rpy(order=bad), ValueError)
 
 
 # ----------------------------------------------------------------------------- int vs float elements
